@@ -41,6 +41,7 @@ int __real_pthread_mutex_destroy(pthread_mutex_t *);
 int __real_pthread_cond_wait(pthread_cond_t *, pthread_mutex_t *);
 int __real_pthread_cond_timedwait(pthread_cond_t *, pthread_mutex_t *, const struct timespec *);
 int __real_pthread_cond_signal(pthread_cond_t *);
+int __real_pthread_cond_init(pthread_cond_t *, const pthread_condattr_t *);
 int __real_pthread_cond_broadcast(pthread_cond_t *);
 int __real_pthread_barrier_init(pthread_barrier_t *, const pthread_barrierattr_t *, unsigned);
 int __real_pthread_barrier_wait(pthread_barrier_t *);
@@ -70,7 +71,7 @@ typedef struct {
     pthread_cond_t cv;
     pthread_t th;
 } actor_t;
-#define MAXA 64
+#define MAXA 256
 static actor_t A[MAXA];
 static int nact, holder = -1;
 static pthread_mutex_t M = PTHREAD_MUTEX_INITIALIZER;
@@ -448,8 +449,11 @@ static void *tramp(void *p)
     UNLOCK();
     return r;
 }
+static int should_fail(void);
 int __wrap_pthread_create(pthread_t *th, const pthread_attr_t *at, void *(*f)(void *), void *a)
 {
+    if (should_fail())
+        return EAGAIN;
     if (!SERIAL())
         return __real_pthread_create(th, at, f, a);
     struct tramp *t = __real_malloc(sizeof *t);
@@ -462,7 +466,7 @@ int __wrap_pthread_create(pthread_t *th, const pthread_attr_t *at, void *(*f)(vo
     memset(&A[id], 0, sizeof(actor_t));
     A[id].st = ST_NONE;
     A[id].deadline = -1;
-    pthread_cond_init(&A[id].cv, NULL);
+    __real_pthread_cond_init(&A[id].cv, NULL);
     UNLOCK();
     int r = __real_pthread_create(th, at, tramp, t);
     if (r) {
@@ -535,8 +539,16 @@ static void vunlock(pthread_mutex_t *m)
     VM[i].owner = -1;
     wake(BK_MUTEX, m, INT_MAX);
 }
+int __wrap_pthread_cond_init(pthread_cond_t *c, const pthread_condattr_t *a)
+{
+    if (should_fail())
+        return ENOMEM;
+    return __real_pthread_cond_init(c, a);
+}
 int __wrap_pthread_mutex_init(pthread_mutex_t *m, const pthread_mutexattr_t *a)
 {
+    if (should_fail())
+        return ENOMEM;
     if (SERIAL()) {
         LOCK();
         int i = vm_find(m, 1);
@@ -625,6 +637,8 @@ int __wrap_pthread_cond_broadcast(pthread_cond_t *c)
 }
 int __wrap_pthread_barrier_init(pthread_barrier_t *b, const pthread_barrierattr_t *a, unsigned n)
 {
+    if (should_fail())
+        return ENOMEM;
     if (SERIAL()) {
         LOCK();
         int i = vm_find(b, 1);
@@ -752,6 +766,7 @@ static long l_live, l_err, l_allocs;
 static int l_track, l_log;
 static long f_kth, f_seen;
 static int f_armed, f_fired;
+static pthread_t f_owner; /* faults are injected into the arming thread only */
 static volatile int l_lock;
 static void ll(void)
 {
@@ -825,6 +840,7 @@ void abtv_fault_arm(long kth)
     f_kth = kth;
     f_seen = 0;
     f_fired = 0;
+    f_owner = pthread_self();
     f_armed = 1;
 }
 long abtv_fault_disarm(void)
@@ -835,7 +851,7 @@ long abtv_fault_disarm(void)
 int abtv_fault_fired(void) { return f_fired; }
 static int should_fail(void)
 {
-    if (!f_armed)
+    if (!f_armed || !pthread_equal(f_owner, pthread_self()))
         return 0;
     long s = __sync_add_and_fetch(&f_seen, 1);
     if (f_kth && s == f_kth) {
@@ -1006,7 +1022,7 @@ void abtv_run_begin(const char *scn, uint64_t seed)
         vm_reset();
         nact = 1;
         memset(&A[0], 0, sizeof A[0]);
-        pthread_cond_init(&A[0].cv, NULL);
+        __real_pthread_cond_init(&A[0].cv, NULL);
         A[0].st = ST_RUN;
         A[0].deadline = -1;
         A[0].th = pthread_self();
